@@ -111,6 +111,16 @@ class Cfg:
         self.ignored = 0
         self.capped = False
         self.ntrans = 0         # state-level transitions
+        self._scopes_at = None
+
+    def scopes_at(self):
+        """(pos, catch) -> list of abstract scope sets"""
+        if self._scopes_at is None:
+            d = {}
+            for p, c, sc in self.proj:
+                d.setdefault((p, c), []).append(sc)
+            self._scopes_at = d
+        return self._scopes_at
 
 
 def static_check(fc, cfg: Cfg):
